@@ -424,6 +424,20 @@ pub fn gen_obj(rng: &mut Rng) -> GenObj {
 /// A mesh far larger than any fixed-width index or buffer a parser might be tempted
 /// to use: more than 65 536 vertices, one face on the last of them.
 pub fn gen_obj_jumbo(rng: &mut Rng) -> GenObj {
+    if rng.chance(1, 4) {
+        // a hundred thousand comment and blank lines around a small mesh
+        let mut text = Vec::new();
+        let n = rng.usize(60_000, 120_000);
+        for i in 0..n {
+            text.extend_from_slice(if i % 3 == 0 { b"\n" } else { b"#\n" });
+            if i == n / 2 {
+                text.extend_from_slice(b"v 1 2 3\nv 4 5 6\nv -0 7e-1 8\nf 1 2 3\n");
+            }
+        }
+        let verts = vec![[1.0f32, 2.0, 3.0].map(f32::to_bits), [4.0f32, 5.0, 6.0].map(f32::to_bits), [-0.0f32, 0.7, 8.0].map(f32::to_bits)];
+        let len = text.len();
+        return GenObj { text, verts, tris: vec![[0, 1, 2]], hot: vec![0, len / 2, len], lines: vec![], mutated: false };
+    }
     if rng.chance(1, 3) {
         // many faces over few vertices: more than 2^16 triangles
         let nv = rng.usize(3, 40);
